@@ -304,6 +304,12 @@ def run(rep, tier):
         clause_i(facts, rep)
         clause_j(facts, rep)
         clause_k(facts, rep, tier)
+        # 'rejected with the infinity error': the code set by parseNumber reaches the caller unchanged (shared with C01)
+        from . import c01 as _c01
+        _c01.clause_first_error(facts, rep)
+        # 'mantissas with hundreds of digits': the 800-digit Decimal of the slow path keeps its count and subscripts in range (shared with C02)
+        from . import c02 as _c02
+        _c02.clause_digit_capacity(facts, rep)
     rep.trust('clang 14 front end and constant evaluator', 'Python big integers / fractions', 'Clinger exact fast-path conditions',
               'simd_str2int contract: the digit count it stores never exceeds the requested count')
     rep.assumptions += [
